@@ -203,6 +203,29 @@ pub const PROG_UNAVAIL: u32 = 1;
 pub const PROG_MISMATCH: u32 = 2;
 pub const PROC_UNAVAIL: u32 = 3;
 
+/// Does the universal address `text` ("<address>.<hi>.<lo>") designate (ip, port)? The address
+/// part may be written in any textual form of the same address (compressed or full IPv6 ...).
+pub fn uaddr_designates(text: &str, ip: &IpAddr, port: u16) -> bool {
+    let mut parts: Vec<&str> = text.rsplitn(3, '.').collect(); // lo, hi, address
+    if parts.len() != 3 {
+        return false;
+    }
+    parts.reverse();
+    let (addr, hi, lo) = (parts[0], parts[1], parts[2]);
+    let plain = |x: &str| !x.is_empty() && x.len() <= 3 && x.bytes().all(|c| c.is_ascii_digit());
+    if !plain(hi) || !plain(lo) {
+        return false;
+    }
+    let (hi, lo) = match (hi.parse::<u32>(), lo.parse::<u32>()) {
+        (Ok(h), Ok(l)) if h <= 255 && l <= 255 => (h, l),
+        _ => return false,
+    };
+    match addr.parse::<IpAddr>() {
+        Ok(a) => a == *ip && hi * 256 + lo == port as u32,
+        Err(_) => false,
+    }
+}
+
 /// The reply C16 demands for a call contacted at (dst ip, dst port).
 pub fn expected_reply(c: &Call, dst: &IpAddr, dport: u16) -> Expected {
     let mut v = Vec::new();
@@ -231,10 +254,11 @@ pub fn expected_reply(c: &Call, dst: &IpAddr, dport: u16) -> Expected {
             v.extend_from_slice(&SUCCESS.to_be_bytes());
             if c.vers == 2 {
                 v.extend_from_slice(&(dport as u32).to_be_bytes());
+                Expected::Exact(v)
             } else {
-                push_str(&mut v, &uaddr(dst, dport));
+                // the universal address is a text: any spelling of the contacted address is right
+                Expected::HeaderOnly("getaddr")
             }
-            Expected::Exact(v)
         }
         4 => {
             // DUMP: the statement fixes what is advertised (address, port, netid by IP
@@ -251,6 +275,27 @@ pub fn expected_reply(c: &Call, dst: &IpAddr, dport: u16) -> Expected {
 
 /// Structural check of a DUMP reply body (after accept_stat): a well-formed XDR list whose
 /// entries advertise the contacted endpoint.
+/// GETADDR (rpcbind v3/v4) result: one XDR string holding a universal address of the contacted
+/// endpoint, padded to 4 bytes, and nothing else.
+pub fn check_getaddr(body: &[u8], dst: &IpAddr, dport: u16) -> Result<(), String> {
+    if body.len() < 4 {
+        return Err("result shorter than a string length".into());
+    }
+    let l = u32::from_be_bytes([body[0], body[1], body[2], body[3]]) as usize;
+    let padded = (l + 3) & !3;
+    if 4 + padded != body.len() {
+        return Err(format!("string of {} bytes (padded {}) in a result of {} bytes", l, padded, body.len() - 4));
+    }
+    let text = String::from_utf8_lossy(&body[4..4 + l]).to_string();
+    if body[4 + l..].iter().any(|b| *b != 0) {
+        return Err("non-zero XDR padding".into());
+    }
+    if !uaddr_designates(&text, dst, dport) {
+        return Err(format!("universal address {:?} but the client contacted {}", text, uaddr(dst, dport)));
+    }
+    Ok(())
+}
+
 pub fn check_dump(body: &[u8], vers: u32, dst: &IpAddr, dport: u16) -> Result<usize, String> {
     let mut i = 0;
     let w = |i: usize| -> Result<u32, String> {
@@ -305,7 +350,7 @@ pub fn check_dump(body: &[u8], vers: u32, dst: &IpAddr, dport: u16) -> Result<us
             if !want_netids.contains(&netid.as_str()) {
                 return Err(format!("netid {:?} does not match the IP version", netid));
             }
-            if addr != uaddr(dst, dport) {
+            if !uaddr_designates(&addr, dst, dport) {
                 return Err(format!("universal address {:?} but the client contacted {}", addr, uaddr(dst, dport)));
             }
         }
